@@ -252,6 +252,29 @@ def run(ctx):
                 except Exception as e:
                     ctx.violation("subset/exception", {"shape": [nx, ny], "k": k, "seed": seed,
                                                        "theory": name, "exc": repr(e)})
+    # sparse subsets of a large image (well under one pixel in a hundred): still distinct pixels, the same again
+    for (nx, ny, k) in ((128, 100, 60), (100, 128, 100), (90, 90, 45)):
+        for seed in (range(0, 6) if quick else range(0, 40)):
+            ctx.case(("subset_sparse", nx, ny, k, seed), nontrivial=True)
+            try:
+                big = detector_grid((nx, ny), (0.1, 0.2)).copy()
+                big.values[...] = nprng.normal(size=big.shape)
+                big = update_metadata(big, noise_sd=0.07, **OPT)
+                keep = fp.fingerprint(big)
+                sub, sel = make_subset_data(big, pixels=k, seed=seed, return_selection=True)
+                sub2, sel2 = make_subset_data(big, pixels=k, seed=seed, return_selection=True)
+                flatvals = big.transpose("z", "x", "y").values[0].ravel()
+                traces.append([{
+                    "event": "Subset", "nx": nx, "ny": ny, "k": k, "seed": seed, "sel": [int(v) for v in sel],
+                    "xi": [int(v) for v in np.round(sub.x.values / 0.1).astype(int)],
+                    "yj": [int(v) for v in np.round(sub.y.values / 0.2).astype(int)],
+                    "values_kept": bool(np.array_equal(sub.values.ravel(), flatvals[np.asarray(sel)])),
+                    "attrs_kept": bool(fp.same(sub.attrs.get("illum_wavelen"), big.attrs.get("illum_wavelen"))),
+                    "orig_dims_ok": bool(np.array_equal(sub.attrs["original_dims"]["x"], big.x.values)),
+                    "same_seed_same_selection": bool(np.array_equal(sel, sel2) and fp.same(sub, sub2)),
+                    "input_untouched": bool(fp.fingerprint(big) == keep), "mb_commute": -20000, "theory": "none (sparse subset)"}])
+            except Exception as e:
+                ctx.violation("subset/exception", {"shape": [nx, ny], "k": k, "seed": seed, "theory": "sparse", "exc": repr(e)[:300]})
     # a subset of an image with a further axis (two colour channels) remembers that axis too
     for (nx, ny, k, seed) in ((3, 4, 5, 0), (4, 4, 16, 7), (2, 5, 1, 3)):
         ctx.case(("subset_multichannel", nx, ny, k, seed), nontrivial=True)
